@@ -258,6 +258,16 @@ def check(chk):
     chk.ob("WINDOW-4", "each watched switch invalidates the count at once and asks for a recount after the debounce, on both edges",
            cbs_ == [(0, "self.invalidate_count"), (0, "self.trigger_recount"), (1, "self.invalidate_count"), (1, "self.trigger_recount")], init_.where(reg_loops[0]),
            detail=str(cbs_), construct=init_.ident, text="switch counter handler set")
+    # a ball that skips the device (plunged before the device saw it) is booked on the target once: the queued route has claimed the target's
+    # ball already when the chain was set up (setup_eject_chain: target.available_balls += 1), so only the unqueued route (_run, no request)
+    # tells _skipping_ball to add it
+    sk_calls = [(m_, c) for m_ in repo.cls(OB, "OutgoingBallsHandler").methods.values() for c in m_.calls() if call_attr(c) == "_skipping_ball"]
+    want_flag = {"_run": True, "_ejecting": False}
+    got_flag = {m_.name: (const_value(c.args[1]) if len(c.args) > 1 else (const_value(kwarg(c, "add_ball_to_target")) if kwarg(c, "add_ball_to_target") is not None else None))
+                for m_, c in sk_calls}
+    chk.ob("CLAIM-4", "a skipping ball is added to the target's claim only on the unqueued route (the queued route claimed it when the chain was set up)", got_flag == want_flag,
+           "%s:%d" % (OB, sk_calls[0][1].lineno if sk_calls else 1), detail="add_ball_to_target per caller: %s" % got_flag, construct=OB + "::OutgoingBallsHandler._skipping_ball",
+           text="skipping ball claim flag")
     # hold-coil devices: a release in progress suspends holding (hold() returns early while the flag is set); the release's completion
     # always ends that state - also when the device ran empty - or the coil is never energised again and the next ball that is counted in
     # rolls straight out (count 1, device physically empty)
@@ -690,6 +700,7 @@ def _entrance_windows_per_switch(chk, repo):
 def battery():
     from sa.battery import M
     return [
+        M("skipping ball of a queued eject claimed twice", OB, "                    result = await self._skipping_ball(self._current_target, False)", "                    result = await self._skipping_ball(self._current_target, True)", "CLAIM-4"),
         M("separate jam switch counted but not watched", "mpf/devices/ball_device/switch_counter.py", "        for switch in self._switches:\n            self.machine.switch_controller.add_switch_handler_obj(", "        for switch in self.config['ball_switches']:\n            self.machine.switch_controller.add_switch_handler_obj(", "WINDOW-4"),
         M("ball-left timer lowers an unreliable count too", "mpf/devices/ball_device/switch_counter.py", "        if not self._is_unreliable:\n            # only do this is count it reliable\n            self._last_count -= 1\n            self.record_activity(BallLostActivity())", "        self._last_count -= 1\n        self.record_activity(BallLostActivity())", "DELTA-1"),
         M("entrance during an eject not counted when the device looks full", "mpf/devices/ball_device/ball_count_handler.py", "        await self.ball_device.incoming_balls_handler.ball_arrived()\n        self._set_ball_count(self._ball_count + 1)", "        await self.ball_device.incoming_balls_handler.ball_arrived()\n        if not self.is_full:\n            self._set_ball_count(self._ball_count + 1)", "DELTA-1"),
